@@ -46,4 +46,10 @@ PROPS = {
         "explanation": "Tie A: function tables regenerated, classification completeness re-proved. Tie B: exhaustive single-operator / single-call programs.",
         "assumptions": ["`a.exists({})`, `a.all({})`, `iif({},..)` are criteria, not single-valued arguments, and may yield values; collection arguments of intersect/exclude may be empty"],
     },
+    "C10": {
+        "level_text": "Proof. Props/C10.v proves for every collection (any length), every per-item criterion value and every integer n: where is the order-preserving filter (multi-item criterion = error), exists(p) = where(p).exists(), all(p) is the conjunction, empty() = (count() = 0), first = [0] = take(1), tail = skip(1), last = skip(count-1), take(n) ++ skip(n) = c, distinct is duplicate-free and covers c, isDistinct iff count = distinct.count iff no duplicates, intersect is the duplicate-free set of common items, exclude equals the specification outside the one listed finding (and is refuted inside it), and that the whole model satisfies the property predicate (C10_holds_model). The model is hand-written from the Go code and tied by the correspondence run.",
+        "level_note": "Trusted: Coq kernel, harness + hook (incl. the harness's independent computation of item equality classes and of per-item criterion values), check driver. Modelled rather than verified: Where/Select/All/Exists/Empty/Count/First/Last/Tail/Skip/Take/Distinct/IsDistinct/Exclude/Intersect and IndexExpression (hand-written Gallina twins of the Go bodies); Collection.Contains / system.Equal are abstracted to equality of classes.",
+        "explanation": "Tie B only: programs over collections with duplicates, mixed types, shared and equal-but-distinct nodes; results compared class by class, with node identity and nil checks.",
+        "assumptions": ["two items are equal iff their harness-computed classes coincide (numeric value across Integer/Decimal, string value across System and FHIR strings, deterministic serialisation for complex elements)"],
+    },
 }
